@@ -73,6 +73,8 @@ ROUND_CAP = {"quick": 40, "thorough": 60}
 # cone helpers
 # --------------------------------------------------------------------------------------------
 def cone_W(case):
+    if "alias" in case:   # the rows the caller handed to OrderingCone (a correct constructor keeps a copy of these)
+        return [[float(x) for x in r] for r in case["alias"]["W0"]]
     if "W" in case:   # explicit rows (θ-cones, ice-cream cones: floats produced by the real constructors)
         return [[float(x) for x in r] for r in case["W"]]
     if case["alg"] == "Auer" or case["alg"] == "EpsilonPAL":
@@ -324,8 +326,26 @@ def build_algorithm(case):
                   conf_contraction=case["conf"])
     W = cone_W(case)
     adv = {"d6": D6Adversary, "boxes": BoxAdversary}.get(case["adv"]["mode"], Adversary)(case, W)
+    order_kw = {"W": W}
+    alias_shared = None
+    if "alias" in case:
+        # the CALLER's float64 buffer: build the order from it, then reuse / overwrite the buffer in place
+        from vopy.order import PolyhedralConeOrder
+        from vopy.ordering_cone import OrderingCone
+
+        W0 = np.array(case["alias"]["W0"], dtype=np.float64)
+        order = PolyhedralConeOrder(OrderingCone(W0))
+        mut = case["alias"]["mutation"]
+        if mut == "normalise":
+            W0 /= np.linalg.norm(W0, axis=1, keepdims=True)
+        elif mut == "scale":
+            W0 *= float(case["alias"]["factor"])
+        elif mut == "overwrite":
+            W0[:] = np.array(case["alias"]["rows"], dtype=np.float64)
+        alias_shared = bool(np.shares_memory(order.ordering_cone.W, W0))
+        order_kw = {"order": order}
     if name == "PaVeBa":
-        alg = stubs.build(name, in_data=X, out_data=Y, W=W, **common)
+        alg = stubs.build(name, in_data=X, out_data=Y, **order_kw, **common)
     elif name == "Auer":
         alg = stubs.build(name, in_data=X, out_data=Y, use_empirical_beta=bool(case.get("empirical")), **common)
     elif name == "EpsilonPAL":
@@ -334,9 +354,10 @@ def build_algorithm(case):
     else:
         cls = stubs.ScriptedModelList if name.startswith("PaVeBaPartial") else stubs.ScriptedModel
         mdl = cls(X, Y.copy(), adv.covs(0))
-        alg = stubs.build(name, in_data=X, out_data=Y, W=W, model=mdl, batch_size=case.get("batch", 1), **common)
+        alg = stubs.build(name, in_data=X, out_data=Y, model=mdl, batch_size=case.get("batch", 1), **order_kw, **common)
     if name in ("PaVeBa", "Auer") and case["adv"]["mode"] != "noise":  # incl. "offsets"
         alg.problem = TargetProblem(alg, adv, name)
+    alg.verif_alias_shared = alias_shared
     return alg, adv
 
 
@@ -1127,6 +1148,97 @@ class D6Adversary(Adversary):
         return np.stack([np.eye(2), np.eye(2)])
 
 
+ALIAS_CONES = ["acute2", "orthant2", "obtuse2", "acute3", "orthant3"]
+
+
+def alias_case(rng, k):
+    """"aliasing" family: the order is built from a caller-owned float64 array with NON-unit rows (an exact cone
+    scaled by 4 … 16 per row); the caller then rescales / overwrites that array in place before the algorithm is
+    constructed.  The cone of a correct `OrderingCone` is unaffected (it copied the rows).  A design lies
+    f·ε (f ∈ {1.5, 2.5, 4}) below another one in gap units — it must not be returned — and the first-round regions
+    are such that it can neither be discarded nor, with the correct α, declared uncoverable."""
+    alg = ("PaVeBa", "PaVeBaGP-DE", "PaVeBaPartialGP-ell")[k % 3]
+    cname = rng.choice(ALIAS_CONES)
+    base = np.array(EXACT_CONES[cname][0], dtype=float)
+    fac = [float(rng.choice([4.0, 8.0, 16.0])) for _ in base]
+    W0 = (base * np.array(fac)[:, None]).tolist()
+    mutation = ("normalise", "scale", "normalise", "overwrite")[(k // 3) % 4]
+    alias = {"W0": W0, "mutation": mutation}
+    if mutation == "scale":
+        alias["factor"] = 1.0 / 16.0
+    if mutation == "overwrite":   # the same cone written with unit rows in another order of magnitude
+        alias["rows"] = (base / np.linalg.norm(base, axis=1, keepdims=True) * 0.5).tolist()
+    m = base.shape[1]
+    alpha = alpha_of(W0)
+    u = interior_direction(W0)
+    eps = rng.choice([0.1, 0.25, 0.05])
+    f = rng.choice([1.5, 2.5, 4.0])
+    per = (np.array(W0) @ u) / alpha
+    d = (f * eps / float(np.min(per))) * u                    # μ_top − μ_low : gap exactly f·ε
+    lowpt = np.array([core.dyadic(rng, -4, 4, 2) for _ in range(m)])
+    Y = [[float(x) for x in lowpt + d], [float(x) for x in lowpt]]
+    if rng.random() < 0.5:
+        Y.append([float(x) for x in lowpt - 20.0 * np.abs(d) - 1.0])
+    n = len(Y)
+    if alg == "PaVeBa":
+        # balls of one radius r_t: start just above the window, as in `paveba_window_case`
+        delta, noise_var = 0.05, 0.04
+        r1_unit = math.sqrt(8 * noise_var * math.log(math.pi ** 2 * (m + 1) * n / (6 * delta)))
+        scale = float(np.min(alpha / np.linalg.norm(np.array(W0), axis=1)))
+        target = rng.choice([1.0, 1.4]) * (f + 1) * eps * scale / 2
+        return {"kind": "run", "alg": alg, "cone": cname + "~aliased", "alias": alias, "shape": "alias-" + mutation,
+                "Y": Y, "eps": eps, "delta": delta, "noise_var": noise_var, "conf": r1_unit / target, "rounds": 80,
+                "adv": {"mode": "centered", "frac": 0.5, "sd0": [[1.0] * m] * n, "shrink": [0.5] * n,
+                        "seed": rng.randrange(1 << 30)}}
+    # ellipsoids (balls) of explicit radius h in round 0: not separable (2h·‖w_n‖ > w_n·d on some facet) but well
+    # inside the reach of a slack that is too large by the old row norm
+    Wn = np.array(W0)
+    fd = Wn @ d
+    h = 0.8 * float(np.min(fd / np.linalg.norm(Wn, axis=1)))    # 2h‖w‖ = 1.6·w·d ∈ (w·d, …)
+    shapes = [np.eye(m).tolist()] * n
+    hist = [[[[0.0] * m] * n, [[h] * m] * n, shapes], [[[0.0] * m] * n, [[2.0 ** -9] * m] * n, shapes]]
+    return {"kind": "run", "alg": alg, "cone": cname + "~aliased", "alias": alias, "shape": "alias-" + mutation,
+            "Y": Y, "eps": eps, "delta": 0.1, "noise_var": 0.0001, "conf": 32, "batch": 1,
+            "adv": {"mode": "boxes", "frac": 1.0, "sd0": [[1.0] * m] * n, "shrink": [0.5] * n,
+                    "seed": rng.randrange(1 << 30), "tail_shrink": 0.5, "history": hist}}
+
+
+def auer_position_layouts():
+    """all placements of the four roles of the id/position scenario over K = 4 ids, then K = 5, 6 with extra
+    incomparable designs: A optimal; B = A − 1.5ε (ε-covered by A only, not discardable for a long time); J far
+    below everything (eliminated in round 1: positions in S shift); C… incomparable with all."""
+    import itertools
+
+    out = []
+    for perm in itertools.permutations(range(4)):
+        out.append((4, perm))
+    for K in (5, 6):
+        for perm in itertools.permutations(range(K), 4):
+            out.append((K, perm))
+    return out
+
+
+def auer_id_position_case(rng, k):
+    layouts = auer_position_layouts()
+    if k < 24:
+        K, perm = layouts[k]
+    else:
+        K, perm = layouts[24 + rng.randrange(len(layouts) - 24)]
+    eps = 0.1
+    a = np.array([1.0, 1.0])
+    roles = {"A": a, "B": a - 1.5 * eps, "J": np.array([-3.0, -3.0]), "C": np.array([-1.0, 3.0])}
+    Y = [None] * K
+    for role, idx in zip("ABJC", perm):
+        Y[idx] = [float(x) for x in roles[role]]
+    extra = [np.array([3.0, -1.0]), np.array([-2.0, 5.0])]
+    for i in range(K):
+        if Y[i] is None:
+            Y[i] = [float(x) for x in extra.pop(0)]
+    return {"kind": "run", "alg": "Auer", "cone": "orthant2", "shape": "auer-id-vs-position", "empirical": False,
+            "Y": Y, "eps": eps, "delta": 0.1, "noise_var": 0.01, "conf": 32, "rounds": 600,
+            "adv": {"mode": "centered", "frac": 0.5, "sd0": [[1.0, 1.0]] * K, "shrink": [0.5] * K, "seed": 1}}
+
+
 def family(ctx, name, nfixed, nthorough, make):
     """Structured family: the first `nfixed` cases come from an RNG sub-stream that depends on the family name
     only — the same cases in every run, whatever VERIF_SEED (worker 0) — the thorough tier adds `nthorough` more
@@ -1177,6 +1289,10 @@ def gen(ctx):
     yield from family(ctx, "auer-two-phase", 8, 160, lambda r, k: auer_two_phase_case(r))
     # PaVeBa on cones whose rows are not unit vectors (α must scale with the rows)
     yield from family(ctx, "window-small-rows", 3, 60, lambda r, k: paveba_window_case(r, ctx.tier, small_rows=True))
+    # the order built from a caller-owned array that is rescaled / overwritten afterwards
+    yield from family(ctx, "alias", 12, 120, alias_case)
+    # Auer: an early elimination shifts positions in S against design ids (all K = 4 layouts, some K = 5, 6)
+    yield from family(ctx, "auer-id-vs-position", 30, 120, auer_id_position_case)
     # PaVeBa windows in which U matters
     yield from family(ctx, "window", 6, 0, lambda r, k: paveba_window_case(r, ctx.tier))
     # structured sweep: every algorithm × a few shapes
@@ -1380,6 +1496,14 @@ def run_case(ctx, case):
         return
     alg = res["alg"]
     P = sorted(int(i) for i in alg.P)
+    if "alias" in case:
+        # the order is judged as the object it is NOW: cone geometry from the W it holds at judgement time
+        W = [[float(x) for x in r] for r in np.asarray(alg.order.ordering_cone.W, dtype=float)]
+        if getattr(alg, "verif_alias_shared", None):
+            ctx.violation("order-aliases-caller-array", f"{name}: OrderingCone keeps the caller's float64 array instead "
+                          "of a copy (np.shares_memory(order.ordering_cone.W, W0) is True): rescaling the caller's buffer "
+                          "after construction changes cone.W under the order while cone.alpha stays as computed", case,
+                          kind="R", detail={"mutation": case["alias"]["mutation"]})
     if name == "Auer":
         alpha = np.ones(m)
     else:
